@@ -1,6 +1,6 @@
 (* Model/ViewsShow.v -- canonical text of a getter outcome (the observation the
    harness prints for the real method), and the registry of view types. *)
-From PV Require Export Base.Text Model.ViewsBase Model.Views Model.ViewsKnown.
+From PV Require Export Base.Text Model.ViewsBase Model.Views Model.Views2 Model.ViewsVar Model.ViewsKnown.
 Open Scope string_scope.
 
 (* full value (C02) *)
@@ -15,6 +15,7 @@ Fixpoint show_value (x : value) : string :=
   | VL l => "[" ++ join "," ((fix go (l : list value) : list string :=
                                match l with [] => [] | y :: r => show_value y :: go r end) l) ++ "]"
   | VU => "ok"
+  | VE => "err"
   end.
 
 (* what C01 constrains: returned or not, and where returned slices lie *)
@@ -24,6 +25,7 @@ Fixpoint show_shape (x : value) : string :=
   | VNil => "e"
   | VL l => "[" ++ join "," ((fix go (l : list value) : list string :=
                                match l with [] => [] | y :: r => show_shape y :: go r end) l) ++ "]"
+  | VE => "err"
   | _ => "ok"
   end.
 
